@@ -289,6 +289,16 @@ class Facts:
             c = [f for f in c if f['file'].endswith(unit_suffix)]
         if len(c) == 1:
             return c[0]
+        if len(c) > 1 and all(f.get('kind') == 'ctor' for f in c):
+            # a user-written copy / move constructor next to the documented one: the documented one is meant
+            own = q.rsplit('::', 1)[0]
+            def is_copy_move(f):
+                ps = f.get('params', [])
+                t = (ps[0].get('cty') or '').replace('const ', '').replace('&', '').strip() if len(ps) == 1 else ''
+                return len(ps) == 1 and (t == own or t == own.split('::')[-1] or own.endswith('::' + t))
+            c2 = [f for f in c if not is_copy_move(f)]
+            if len(c2) == 1:
+                return c2[0]
         if not c and optional:
             return None
         if not c:
